@@ -117,3 +117,25 @@ def run(F, ctx):
         if not ok:
             ctx.violation("%s:R-C11-b:history-collapsed:%s" % (PB + "compact", r.split("::")[-1]), "compaction merges a tuple's updates regardless of their logical time (%s) while recovery replays the log in time order with set semantics: after insert t; insert t; delete t; compact; restart the tuple reappears" % r.split("::")[-1], c.where())
     ctx.end_rule()
+
+    # ---- c: recovery replays in time order, so time order must be apply order
+    ctx.rule("R-C11-c", "the logical time of a write is drawn inside the critical section in which the write is applied to the served state", floor=2)
+    for (entry, mut) in ((SE + "::insert_tuples_into", KG + "::insert_in_memory"), (SE + "::delete_tuples_from", KG + "::delete_in_memory")):
+        f = F.fn(entry)
+        draws = [c for c in common.calls_on_field(f, "logical_time") if re.search(r"::fetch_add$", c.static_args or c.static or "")]
+        if not draws:
+            draws = [c for c in f.normal_calls() if re.search(r"atomic::Atomic.*::fetch_add$", c.static_args or "")]
+        muts = [c for c in f.normal_calls() if c.resolved == mut]
+        if not draws or not muts:
+            raise CheckError("%s: time draw / mutator call not found" % entry)
+        regs = []
+        for (c, fld, md) in common.lock_acquisitions(f):
+            if md == "write" and "KnowledgeGraph" in (c.static_args or ""):
+                reg, drops = common.guard_region(f, c)
+                if any(common.call_in_region(f, m_, reg, drops) for m_ in muts):
+                    regs.append((reg, drops))
+        ok = bool(regs) and all(any(common.call_in_region(f, d_, reg, drops) for (reg, drops) in regs) for d_ in draws)
+        ctx.site("%s: fetch_add on the logical clock inside the write-lock region of %s" % (entry.split("::")[-1], mut.split("::")[-1]), draws[0].where(), ok=ok)
+        if not ok:
+            ctx.violation("%s:R-C11-c:time-drawn-outside-apply-section" % entry, "%s draws the write's logical time before it takes the graph's write lock: two concurrent writers of one tuple can be applied in the opposite order of their times, while recovery replays the log in time order - the recovered relation differs from the one that was served" % entry.split("::")[-1], draws[0].where())
+    ctx.end_rule()
